@@ -449,10 +449,14 @@ static Type *declspec(Token **rest, Token *tok, VarAttr *attr) {
         error_tok(tok, "_Alignas is not allowed in this context");
       tok = skip(tok->next, "(");
 
+      // Of several _Alignas the strictest one applies (C11 6.7.5p6).
+      int align;
       if (is_typename(tok))
-        attr->align = typename(&tok, tok)->align;
+        align = typename(&tok, tok)->align;
       else
-        attr->align = const_expr(&tok, tok);
+        align = const_expr(&tok, tok);
+      if (attr->align < align)
+        attr->align = align;
       tok = skip(tok, ")");
       continue;
     }
